@@ -184,7 +184,33 @@ type calleeEnv struct {
 
 func (ex *Exec) contractEnv(c *Contract, callee *ssa.Function, sig *types.Signature, recv Term, recvT types.Type, args []Term, st, old *State) *Env {
 	env := &Env{ex: ex, vars: map[string]tv{}, st: st, old: old}
-	if callee != nil {
+	if callee != nil && len(callee.Params) == 0 && (sig.Params().Len() > 0 || sig.Recv() != nil) {
+		// external function without a body: bind by signature
+		off := 0
+		if sig.Recv() != nil && len(args) > 0 {
+			n := sig.Recv().Name()
+			if n == "" || n == "_" {
+				n = "self"
+			}
+			env.vars[n] = tv{t: args[0], typ: sig.Recv().Type()}
+			env.vars["self"] = tv{t: args[0], typ: sig.Recv().Type()}
+			off = 1
+		}
+		for i := 0; i < sig.Params().Len(); i++ {
+			if i+off < len(args) {
+				p := sig.Params().At(i)
+				n := p.Name()
+				if n == "" || n == "_" {
+					n = fmt.Sprintf("arg%d", i)
+				}
+				env.vars[n] = tv{t: args[i+off], typ: p.Type()}
+				env.vars[fmt.Sprintf("arg%d", i)] = tv{t: args[i+off], typ: p.Type()}
+			}
+		}
+		if callee.Object() != nil && callee.Object().Pkg() != nil {
+			env.pkg = callee.Object().Pkg()
+		}
+	} else if callee != nil {
 		if callee.Pkg != nil {
 			env.pkg = callee.Pkg.Pkg
 		} else if callee.Parent() != nil && callee.Parent().Pkg != nil {
@@ -270,11 +296,23 @@ func (ex *Exec) applyContract(f *frame, st *State, c *Contract, callee *ssa.Func
 	}
 	// effects
 	if c.HasMods {
+		if !c.Pure {
+			ex.advanceClock(st)
+		}
 		ex.applyModifies(st, c, envPre)
+	} else if callee != nil && callee.Blocks != nil {
+		ex.havocSet(st, ex.V.modSet(callee))
 	} else if callee != nil {
 		ex.havocSet(st, ex.V.modSet(callee))
 	} else {
 		ex.havocSet(st, map[string]bool{"*": true})
+	}
+	for _, g := range c.AlsoMods {
+		if gv, ok := ex.V.specs.ghosts[g]; ok {
+			ex.havoc(st, "G:"+gv.Name)
+		} else {
+			ex.havoc(st, g)
+		}
 	}
 	// results
 	results := ex.freshResults(f, st, sig, hint)
@@ -497,6 +535,7 @@ func (V *Verifier) newExec(fn *ssa.Function) *Exec {
 	ex := &Exec{V: V, sc: newScript(), root: fn, notes: map[string]bool{}, counts: map[string]int{}}
 	ex.sc.axiom(app(SBool, ">", ex.sc.declare("pre:"+compAlloc, SInt), intLit(0)))
 	ex.regComp(compAlloc, SInt)
+	ex.regComp("G:clock", SInt)
 	return ex
 }
 
@@ -538,6 +577,11 @@ func (V *Verifier) verifyFunction(fn *ssa.Function, lockMode bool) *FnResult {
 			}
 		}
 	}
+	if c != nil {
+		for _, sa := range c.Sites {
+			sa.Hits = 0
+		}
+	}
 	ex.runBody(f, entry, params)
 	if c != nil && f.exit.reach.S != "false" {
 		env := ex.frameEnv(f, f.exit, f.entry)
@@ -554,6 +598,11 @@ func (V *Verifier) verifyFunction(fn *ssa.Function, lockMode bool) *FnResult {
 		}
 		if c.HasMods {
 			ex.frameObligations(f, c)
+		}
+		for _, sa := range c.Sites {
+			if sa.Hits == 0 {
+				ex.oblige(f, f.exit, "assert", sa.Label+":site-missing", sa.Label, fn.Pos(), tFalse, "the instruction the assertion is attached to ("+sa.Site+") no longer exists in the function")
+			}
 		}
 		if ex.lockMode {
 			ex.lockBalance(f, c)
